@@ -45,14 +45,15 @@ macro_rules! read_hex {
         } else {
             let mut i = 0;
             loop {
-                let high = $crate::HEX_INVERSE[$input[i * 2] as usize];
-                if high == 255 {
-                    break Err($crate::InnerError::BadHexInput.into());
-                }
-                let low = $crate::HEX_INVERSE[$input[i * 2 + 1] as usize];
-                if low == 255 {
-                    break Err($crate::InnerError::BadHexInput.into());
-                }
+                // bytes >= 128 are outside the table and are not hex characters
+                let high = match $crate::HEX_INVERSE.get($input[i * 2] as usize) {
+                    Some(h) if *h != 255 => *h,
+                    _ => break Err($crate::InnerError::BadHexInput.into()),
+                };
+                let low = match $crate::HEX_INVERSE.get($input[i * 2 + 1] as usize) {
+                    Some(l) if *l != 255 => *l,
+                    _ => break Err($crate::InnerError::BadHexInput.into()),
+                };
                 $output[i] = high * 16 + low;
                 i += 1;
                 if i == $bytelen {
